@@ -110,6 +110,18 @@ where
         Path(path_states)
     }
 
+    /// Snapshot of both search trees (start tree, goal tree): (state, parent index, 0) per node.
+    #[cfg(oxmpl_verif)]
+    #[allow(clippy::type_complexity)]
+    pub fn verif_trees(&self) -> [Vec<(S, Option<usize>, f64)>; 2] {
+        let snap = |t: &Vec<Node<S>>| {
+            t.iter()
+                .map(|n| (n.state.clone(), n.parent_index, 0.0))
+                .collect::<Vec<_>>()
+        };
+        [snap(&self.start_tree), snap(&self.goal_tree)]
+    }
+
     /// Helper function to extend a tree towards a target state.
     ///
     /// This function finds the node in the `tree` nearest to `q_target`. It then creates a new state
@@ -219,6 +231,13 @@ where
             parent_index: None,
         };
         self.start_tree.push(start_node);
+        #[cfg(oxmpl_verif)]
+        crate::verif::emit(crate::verif::Event::Push {
+            tree: 0,
+            idx: 0,
+            parent: None,
+            cost: 0.0,
+        });
 
         let mut rng = rand::rng();
         let goal_state = pd.goal.sample_goal(&mut rng).unwrap();
@@ -227,9 +246,18 @@ where
             parent_index: None,
         };
         self.goal_tree.push(goal_node);
+        #[cfg(oxmpl_verif)]
+        crate::verif::emit(crate::verif::Event::Push {
+            tree: 1,
+            idx: 0,
+            parent: None,
+            cost: 0.0,
+        });
     }
 
     fn solve(&mut self, timeout: Duration) -> Result<Path<S>, PlanningError> {
+        #[cfg(oxmpl_verif)]
+        use crate::verif::Instant;
         let mut rng = self
             .rng
             .take()
@@ -273,6 +301,13 @@ where
             if let Some((_extend_result, new_node_idx_a)) =
                 Self::extend(tree_a, &q_rand, pd, vc, self.max_distance)
             {
+                #[cfg(oxmpl_verif)]
+                crate::verif::emit(crate::verif::Event::Push {
+                    tree: if is_growing_start_tree { 0 } else { 1 },
+                    idx: new_node_idx_a,
+                    parent: tree_a[new_node_idx_a].parent_index,
+                    cost: 0.0,
+                });
                 let q_new = &tree_a[new_node_idx_a].state;
 
                 // If growing the start tree, check if the new node is already in the goal.
@@ -285,6 +320,13 @@ where
                 if let Some((connect_result, new_node_idx_b)) =
                     Self::extend(tree_b, q_new, pd, vc, self.max_distance)
                 {
+                    #[cfg(oxmpl_verif)]
+                    crate::verif::emit(crate::verif::Event::Push {
+                        tree: if is_growing_start_tree { 1 } else { 0 },
+                        idx: new_node_idx_b,
+                        parent: tree_b[new_node_idx_b].parent_index,
+                        cost: 0.0,
+                    });
                     // 6. If the connection reached q_new, a solution is found.
                     if connect_result == ExtendResult::Reached {
                         println!(
